@@ -821,6 +821,10 @@ def r_extension_dispatch(repo, rep, R='R15.7'):
                 for cnd, pol in conds:
                     if cnd[0] == 'call' and cnd[1] == A(N(p), 'endswith') and len(cnd[2]) == 1 and cnd[2][0][0] == 'const':
                         ends[cnd[2][0][1]] = pol
+                    elif cnd[0] == 'call' and cnd[1] == A(N(p), 'endswith') and len(cnd[2]) == 1 and cnd[2][0][0] in ('tuple', 'list') \
+                            and all(x_[0] == 'const' for x_ in cnd[2][0][1]):
+                        for x_ in cnd[2][0][1]:         # one of several suffixes
+                            ends[x_[1]] = pol
                 reached.setdefault(nm, []).append(ends)
     if uses_split:
         # keys of the table: constants of the module-level dictionary the suffix is looked up in
